@@ -381,7 +381,7 @@ def probe_schedules():
                     {"ev": "Par", "steps": [F(2), C(3)]}, {"ev": "Par", "steps": [D(2), D(3)]}, call(4, 5, [1, 2, 3]),
                     call(5, 5, [2])])
         out.append([cfg, call(1, 5, [1]), C(1), D(1), call(2, 5, [1, 2]), call(3, 5, [2, 1, 3]), C(3), D(3), F(2), D(2),
-                    call(4, 5, [1, 2]), call(5, 5, [2, 1]), F(2), D(2)])
+                    call(4, 5, [1, 2]), call(5, 5, [2, 1])])
         out.append([cfg, call(1, 5, [1]), C(1), D(1), call(2, 5, [1, 2]), call(3, 5, [2, 3]), F(2), D(2), C(3), D(3),
                     call(4, 5, [1, 2, 3])])
         # a failing call straddling reorg + InvalidateCache, and one straddling Trim
@@ -465,19 +465,102 @@ def mutators():
                 e["mv"] += 1
                 return t
         return None
-    return [("answer version changed", wrong_version), ("answer duty dropped", drop_duty),
+    def err_to_empty(t):
+        for e in t:
+            if e.get("ev") == "Ret" and "err" in e:
+                del e["err"]
+                e["ans"], e["mv"] = [], 0
+                return t
+        return None
+
+    def err_to_cached_part(t):
+        # what the seeded defect C15-C does: a request whose beacon call failed is answered, without error, with the
+        # duties cached for the epoch (simulated on the recorded trace; only before any reorg / invalidation / trim)
+        calls, cachedd, metav = {}, {}, {}
+        asg = t[0].get("asg", [])
+        for i, e in enumerate(t):
+            ev = e.get("ev")
+            if ev in ("Reorg", "InvCall", "TrimCall"):
+                return None
+            if ev == "Call":
+                calls[e["r"]] = e
+            if ev == "Ret" and "err" not in e:
+                c = calls[e["r"]]
+                metav.setdefault((c["k"], c["e"]), e["mv"])
+                for d in e["ans"]:
+                    cachedd.setdefault((c["k"], c["e"]), {}).setdefault(d["x"], [])
+                    if d not in cachedd[(c["k"], c["e"])][d["x"]]:
+                        cachedd[(c["k"], c["e"])][d["x"]].append(d)
+            if ev == "Ret" and "err" in e:
+                c = calls[e["r"]]
+                have = cachedd.get((c["k"], c["e"]), {})
+                part = [d for x in c["S"] for d in have.get(x, [])]
+                lacking = [x for x in c["S"] if x not in have and
+                           any(a["k"] == c["k"] and a["e"] == c["e"] and a["x"] == x and a["v"] == 0 for a in asg)]
+                if part and lacking:
+                    del e["err"]
+                    e["ans"], e["mv"] = part, metav[(c["k"], c["e"])]
+                    return t
+        return None
+
+    def fail_to_compute(t):
+        for e in t:
+            if e.get("ev") == "Fail":
+                e["ev"], e["v"] = "Compute", 0
+                return t
+        return None
+
+    def drop_fail(t):
+        for i, e in enumerate(t):
+            if e.get("ev") == "Fail":
+                del t[i]
+                return t
+        return None
+
+    def compute_to_fail(t):
+        for e in t:
+            if e.get("ev") == "Compute":
+                e["ev"] = "Fail"
+                del e["v"]
+                return t
+        return None
+    return [("error return replaced by an empty answer without error", err_to_empty),
+            ("failed request answered with the cached part, no error (the C15-C defect simulated on a trace)",
+             err_to_cached_part),
+            ("Fail event replaced by Compute", fail_to_compute), ("Fail event dropped", drop_fail),
+            ("Compute event replaced by Fail", compute_to_fail),
+            ("answer version changed", wrong_version), ("answer duty dropped", drop_duty),
             ("FetchCall event dropped", drop_fetchcall), ("fetched indices shortened", fetch_more),
             ("fetch replaced by cache hit", hit_instead_of_fetch), ("InvRet event dropped", drop_invret),
             ("metadata version changed", wrong_meta)]
 
 
 # ------------------------------------------------------------------------------------------------
+ASSUMPTIONS = [
+        "the beacon node is the gated mock (real beaconmock.Mock with the three duty endpoints replaced): it answers exactly "
+        "the indices asked for from a versioned table, each call blocks until the driver lets it compute and lets it return",
+        "a reorg is visible to the cache only through InvalidateCache; answers may be as old as the last InvalidateCache that "
+        "RETURNED before the request was called (per index one single version, never mixed)",
+        "requests name an explicit, duplicate-free, non-empty index set; order of the returned duties is not compared",
+        "linearisation of concurrent groups is inferred by TLC between call-type and return-type events; one "
+        "InvalidateCache/Trim in flight at a time",
+        "whether a store whose fetch straddled InvalidateCache is dropped or applied is left open in trace validation "
+        "(GuardGeneration=either); FreshAfterInvalidate on the answers decides",
+        "a beacon call fails only when the schedule says so (the driver's choice per call, made when the call is released); "
+        "a request whose beacon call failed must return an error or else an answer that passes the same equality with the "
+        "beacon node's answer for the WHOLE requested set (OnFetchError=either); a request returns an error only after its own "
+        "beacon call failed; the error value itself and whatever accompanies it are not compared",
+        "the empty-index request (all active validators) and a beacon node that answers with nil duties are outside the "
+        "statement and not exercised"]
+
+
 def run(tier, seed):
     o = vlib.Outcome(PID, tier, seed)
     thorough = tier == "thorough"
     # stage 0: design check
-    cfgs = (["DutiesCacheMC.cfg", "DutiesCacheMC_mid.cfg", "DutiesCacheMC_2kinds.cfg", "DutiesCacheMC_trim.cfg"] if thorough
-            else ["DutiesCacheMC_quick.cfg", "DutiesCacheMC_trim.cfg"])
+    cfgs = (["DutiesCacheMC.cfg", "DutiesCacheMC_mid.cfg", "DutiesCacheMC_2kinds.cfg", "DutiesCacheMC_trim.cfg",
+             "DutiesCacheMC_bnfail.cfg"] if thorough
+            else ["DutiesCacheMC_quick.cfg", "DutiesCacheMC_trim.cfg", "DutiesCacheMC_bnfail_quick.cfg"])
     if os.environ.get("VERIF_C20_NOMC"):      # development only (mutation experiments): skip the repo-independent stage 0
         cfgs = []
     for cfg in cfgs:
@@ -488,7 +571,10 @@ def run(tier, seed):
     for cfg, inv, what in [("DutiesCacheMC_ascoded_stale.cfg", "FreshAfterInvalidate",
                             "spec variant GuardGeneration=no (store after invalidation) violates FreshAfterInvalidate"),
                            ("DutiesCacheMC_ascoded_shared.cfg", "PrivateCopies",
-                            "spec variant ShareRefs=TRUE (answers share slices/maps with the cache) violates PrivateCopies")]:
+                            "spec variant ShareRefs=TRUE (answers share slices/maps with the cache) violates PrivateCopies"),
+                           ("DutiesCacheMC_ctl_partial.cfg", "NoPartialOnError",
+                            "spec variant OnFetchError=partial (a failed beacon call is answered with the cached part of the "
+                            "epoch, no error) violates NoPartialOnError")]:
         r = vlib.tlc(PID, FAMILY, "DutiesCacheMC", cfg, timeout=600)
         if r.violation != inv:
             raise vlib.Infra("design-spec control failed (%s): %s" % (cfg, r.summary()))
@@ -500,6 +586,8 @@ def run(tier, seed):
     probes = probe_schedules()
     rnd = random_schedules(seed, 2000 if thorough else 250, thorough, False)
     par = random_schedules(seed, 1000 if thorough else 100, thorough, True)
+    bnf = (random_schedules(seed, 600 if thorough else 70, thorough, False, bnfail=True) +
+           random_schedules(seed, 300 if thorough else 30, thorough, True, bnfail=True))
     # stage 2+3
     T, C = "DutiesCacheTrace", "DutiesCacheTrace.cfg"
     ch = 100 if thorough else 40      # traces per TLC process (validation runs NCPU processes side by side)
@@ -507,20 +595,15 @@ def run(tier, seed):
     vlib.conformance(o, FAMILY, T, C, "c20", scheds, tag="tlcgen", chunk=ch)
     vlib.conformance(o, FAMILY, T, C, "c20", rnd, tag="random", chunk=ch)
     vlib.conformance(o, FAMILY, T, C, "c20", par, tag="concurrent", chunk=ch)
+    vlib.conformance(o, FAMILY, T, C, "c20", bnf, tag="bnfail", chunk=ch)
+    if o.violations:     # (the controls below corrupt ACCEPTED traces)
+        return vlib.finish(o, "model_checking", RULE, ASSUMPTIONS)
     # binding negative controls on recorded traces
-    tr = vlib.split_traces(vlib.read_ndjson(vlib.workdir(PID) + "/trace_random.ndjson"))
+    tr = (vlib.split_traces(vlib.read_ndjson(vlib.workdir(PID) + "/trace_bnfail.ndjson")) +
+          vlib.split_traces(vlib.read_ndjson(vlib.workdir(PID) + "/trace_probe.ndjson")) +
+          vlib.split_traces(vlib.read_ndjson(vlib.workdir(PID) + "/trace_random.ndjson")))
     vlib.binding_selftest(o, FAMILY, T, C, tr, mutators())
-    return vlib.finish(o, "model_checking", RULE, [
-        "the beacon node is the gated mock (real beaconmock.Mock with the three duty endpoints replaced): it answers exactly "
-        "the indices asked for from a versioned table, each call blocks until the driver lets it compute and lets it return",
-        "a reorg is visible to the cache only through InvalidateCache; answers may be as old as the last InvalidateCache that "
-        "RETURNED before the request was called (per index one single version, never mixed)",
-        "requests name an explicit, duplicate-free, non-empty index set; order of the returned duties is not compared",
-        "linearisation of concurrent groups is inferred by TLC between call-type and return-type events; one "
-        "InvalidateCache/Trim in flight at a time",
-        "whether a store whose fetch straddled InvalidateCache is dropped or applied is left open in trace validation "
-        "(GuardGeneration=either); FreshAfterInvalidate on the answers decides",
-        "beacon errors and the empty-index request (all active validators) are outside the statement and not exercised"])
+    return vlib.finish(o, "model_checking", RULE, ASSUMPTIONS)
 
 
 def replay(path):
